@@ -85,16 +85,19 @@ fn explore(api: &Api, seed: u64, cx: &mut Cx) {
                             for (what, file) in [("with-record", Some(Blob::n(&r.file))), ("without-record", None)] {
                                 for kj in 0..2 {
                                     let s2 = setup_of(si, kj);
-                                    cx.edges += 1;
-                                    match api.slogin_start(&mut Tape::seeded(seed, "c14/server"), &Blob::n(&s2), file.as_ref(), &Blob::n(&ke1), cid, None, None, None) {
-                                        Ok((ke2, _)) => {
-                                            if ke2[..noe] != evl[..] {
-                                                cx.violate(&format!("evaluation/login-{}-differs", what), format!("login evaluation ({}, static key {}) differs from the reference model", what, kj));
-                                            } else {
-                                                cx.outcome("evaluation-matches-model");
+                                    // the evaluation must not depend on the optional login parameters either
+                                    for (pn, ctx, idu, ids) in [("no-parameters", None, None, None), ("context+identities", Some(&b"ctx"[..]), Some(&b"alice-identity"[..]), Some(&b"server-identity"[..])), ("client-identity-only", None, Some(&b"alice-identity"[..]), None)] {
+                                        cx.edges += 1;
+                                        match api.slogin_start(&mut Tape::seeded(seed, "c14/server"), &Blob::n(&s2), file.as_ref(), &Blob::n(&ke1), cid, ctx, idu, ids) {
+                                            Ok((ke2, _)) => {
+                                                if ke2[..noe] != evl[..] {
+                                                    cx.violate(&format!("evaluation/login-{}-differs/{}", what, pn), format!("login evaluation ({}, static key {}, {}) differs from the reference model's function of (seed, credential id, request)", what, kj, pn));
+                                                } else {
+                                                    cx.outcome("evaluation-matches-model");
+                                                }
                                             }
+                                            Err(e) => cx.violate("honest-step/error", format!("{:?}", e)),
                                         }
-                                        Err(e) => cx.violate("honest-step/error", format!("{:?}", e)),
                                     }
                                 }
                             }
